@@ -11,7 +11,7 @@ open Rs
 
 variable {cfg : Cfg}
 
-theorem Matched.append {α β : Type} {R : α → β → Prop} {as1 as2 : List α} {bs1 bs2 : List β}
+theorem Matched.app {α β : Type} {R : α → β → Prop} {as1 as2 : List α} {bs1 bs2 : List β}
     (h1 : Matched R as1 bs1) (h2 : Matched R as2 bs2) : Matched R (as1 ++ as2) (bs1 ++ bs2) := by
   induction h1 with
   | nil => exact h2
@@ -44,7 +44,7 @@ theorem Balanced.step {G : List Grant} {R : List BaseReq} {s s' : State} (h : Ba
     (hp : (rel ++ owned cfg s').Perm (owned cfg s ++ acq.map (deallocReq cfg))) :
     Balanced cfg (G ++ gr) (R ++ rel) s' := by
   obtain ⟨acq0, hm0, hp0⟩ := h
-  refine ⟨acq0 ++ acq, hm0.append hm, ?_⟩
+  refine ⟨acq0 ++ acq, hm0.app hm, ?_⟩
   rw [List.map_append, List.append_assoc]
   have h1 : (R ++ (rel ++ owned cfg s')).Perm (R ++ (owned cfg s ++ acq.map (deallocReq cfg))) :=
     List.Perm.append_left R hp
